@@ -28,6 +28,8 @@ pub struct FdtFile {
     pub groups: Vec<String>,
     /// "no-cache" | "max-stale" | "Expires:<ntp seconds>"
     pub cache: Option<String>,
+    /// X-Optel-Propagator (base64 of a JSON object), as written
+    pub optel: Option<String>,
 }
 
 #[derive(Clone, Debug)]
@@ -93,6 +95,7 @@ pub fn read_doc(xml_bytes: &[u8]) -> Result<FdtDoc, String> {
                 .attr("FEC-OTI-Scheme-Specific-Info")
                 .map(|s| s.to_string()),
             etag: f.attr_local("File-ETag").map(|s| s.to_string()),
+            optel: f.attr("X-Optel-Propagator").map(|s| s.to_string()),
             groups: f.children_local("Group").map(|g| g.text.clone()).collect(),
             cache,
         });
